@@ -72,17 +72,20 @@ Lemma swap_adj L s al i j r s' :
   Gd L s → levels_ok s al → j = i + 1 ∨ i = j + 1 → i < nvars s → j < nvars s →
   swap i j (Some al) s = (r, s') →
   r = Err EOracle ∨
+  (r = Err ERuntime ∧ s' = s ∧ is_Some (max_nodes s)) ∨
   ∃ al', r = Ok ((len s, len s'), al') ∧ Stp L s s' ∧ levels_ok s' al' ∧
          vperm (tp i j) s s'.
 Proof.
   intros (HI&HC&Hll) Hal Hij Hi Hj Hrun.
   assert (Hgen : ∀ x, x + 1 < nvars s → swap x (x + 1) (Some al) s = (r, s') →
             r = Err EOracle ∨
+            (r = Err ERuntime ∧ s' = s ∧ is_Some (max_nodes s)) ∨
             ∃ al', r = Ok ((len s, len s'), al') ∧ Stp L s s' ∧ levels_ok s' al' ∧
                    vperm (tp x (x + 1)) s s').
   { intros x Hx Hrun'.
     destruct (swap_correct s x al L r s' HI HC Hll Hx Hal Hrun')
-      as [->|(oldn&newn&al'&->&HI'&HC'&Hal'&->&->&Hv&HD&Hkeep&_&Hll')]; [by left|right].
+      as [->|[?|(oldn&newn&al'&->&HI'&HC'&Hal'&->&->&Hv&HD&Hkeep&_&Hll')]];
+      [by left|by right; left|right; right].
     exists al'. split; [done|]. split; [|split; [done|]].
     - split; [done|]. split; [by apply (swap_nvars s x al L (Ok (len s, len s', al')) s')|]. split.
       + intros u Hu. pose proof (held_valid L s u HI HC Hu) as Hvu.
@@ -94,7 +97,7 @@ Proof.
   destruct Hij as [->| ->].
   - by apply Hgen.
   - rewrite swap_sym in Hrun by lia.
-    destruct (Hgen j ltac:(lia) Hrun) as [?|(al'&?&?&?&Hp)]; [by left|right].
+    destruct (Hgen j ltac:(lia) Hrun) as [?|[?|(al'&?&?&?&Hp)]]; [by left|by right; left|right; right].
     exists al'. split_and!; try done.
     intros v l Hv. rewrite (Hp v l Hv). f_equal. unfold tp. repeat case_decide; lia.
 Qed.
@@ -147,7 +150,7 @@ Lemma shift_loop_spec L s0 a (down : bool) : Inv s0 → ∀ n i al sizes s r s',
   (if down then a ≤ i ∧ i + n < nvars s0 else i ≤ a ∧ n ≤ i ∧ i < nvars s0) →
   (∀ p v, (p, v) ∈ sizes → Visited L s0 a p v) →
   shift_loop n i down al sizes s = (r, s') →
-  r = Err EOracle ∨
+  r = Err EOracle ∨ r = Err ERuntime ∨
   ∃ sizes' al', r = Ok (sizes', al') ∧ Stp L s0 s' ∧ levels_ok s' al' ∧
     vperm (mv a (if down then i + n else i - n)) s0 s' ∧
     (∀ p v, (p, v) ∈ sizes' → Visited L s0 a p v) ∧
@@ -156,7 +159,7 @@ Lemma shift_loop_spec L s0 a (down : bool) : Inv s0 → ∀ n i al sizes s r s',
     (n = 0 → sizes' = sizes).
 Proof.
   intros HI0. induction n as [|n IH]; intros i al sizes s r s' HS Hal Hp Hb Hsz.
-  - cbn [shift_loop]. intros [= <- <-]. right. exists sizes, al.
+  - cbn [shift_loop]. intros [= <- <-]. right. right. exists sizes, al.
     replace (if down then i + 0 else i - 0) with i by (destruct down; lia).
     split_and!; try done. lia.
   - cbn [shift_loop]. set (j := if down then i + 1 else i - 1).
@@ -165,8 +168,9 @@ Proof.
     destruct (swap i j (Some al) s) as [r1 s1] eqn:Esw.
     destruct (swap_adj L s al i j r1 s1 HG Hal Hij ltac:(destruct down; lia)
                 ltac:(subst j; destruct down; lia) Esw)
-      as [->|(al1&->&HS1&Hal1&Hp1)].
+      as [->|[(->&_)|(al1&->&HS1&Hal1&Hp1)]].
     { rewrite (bind_err _ _ _ _ _ Esw). intros [= <- <-]. by left. }
+    { rewrite (bind_err _ _ _ _ _ Esw). intros [= <- <-]. by right; left. }
     rewrite (bind_ok _ _ _ _ _ Esw). cbv beta iota.
     assert (HS01 : Stp L s0 s1) by (by apply (Stp_trans L s0 s s1)).
     assert (Hp01 : vperm (mv a j) s0 s1).
@@ -180,9 +184,10 @@ Proof.
       - apply sizes_set_in in Hin as [[= -> ->]|Hin]; [|by apply Hsz].
         exists s. done. }
     destruct (IH j al1 _ s1 r s' HS01 Hal1 Hp01 ltac:(subst j; destruct down; lia)
-                Hsz1 Hrun) as [->|(sizes'&al'&->&HS'&Hal'&Hp'&Hv'&Hk'&Hb'&_)].
+                Hsz1 Hrun) as [->|[->|(sizes'&al'&->&HS'&Hal'&Hp'&Hv'&Hk'&Hb'&_)]].
     { by left. }
-    right. exists sizes', al'.
+    { by right; left. }
+    right. right. exists sizes', al'.
     replace (if down then i + S n else i - S n) with (if down then j + n else j - n)
       by (subst j; destruct down; lia).
     split_and!; try done.
@@ -199,7 +204,7 @@ Qed.
 Theorem shift_spec L s a e al r s' :
   Gd L s → levels_ok s al → a < nvars s → e < nvars s →
   shift a e al s = (r, s') →
-  r = Err EOracle ∨
+  r = Err EOracle ∨ r = Err ERuntime ∨
   ∃ sizes al', r = Ok (sizes, al') ∧ Stp L s s' ∧ levels_ok s' al' ∧
     vperm (mv a e) s s' ∧
     (∀ p v, (p, v) ∈ sizes → Visited L s a p v) ∧
@@ -215,11 +220,13 @@ Proof.
   { intros p v H. by apply elem_of_nil in H. }
   case_decide as Hlt; intros Hrun.
   - destruct (shift_loop_spec L s a true HI (e - a) a al [] s r s' (Stp_refl L s HG) Hal Hp0
-                ltac:(cbv iota; lia) Hnil Hrun) as [->|(sz&al'&->&?&?&Hp&?&_&Hb&_)]; [by left|right].
+                ltac:(cbv iota; lia) Hnil Hrun) as [->|[->|(sz&al'&->&?&?&Hp&?&_&Hb&_)]];
+      [by left|by right; left|right; right].
     exists sz, al'. replace (a + (e - a)) with e in * by lia.
     split_and!; try done; [|lia]. intros _. apply Hb. lia.
   - destruct (shift_loop_spec L s a false HI (a - e) a al [] s r s' (Stp_refl L s HG) Hal Hp0
-                ltac:(cbv iota; lia) Hnil Hrun) as [->|(sz&al'&->&?&?&Hp&?&_&Hb&Hn)]; [by left|right].
+                ltac:(cbv iota; lia) Hnil Hrun) as [->|[->|(sz&al'&->&?&?&Hp&?&_&Hb&Hn)]];
+      [by left|by right; left|right; right].
     exists sz, al'. replace (a - (a - e)) with e in * by lia.
     split_and!; try done.
     + intros Hne. apply Hb. lia.
